@@ -147,6 +147,43 @@ Example C14_example_open_race_repaired :
   let w := orun true open_race_witness oinit in panics w = O /\ open_errs w = 1%nat /\ opening w = [] /\ late w = [].
 Proof. exact open_race_witness_repaired. Qed.
 
+(* the slices a dead session's streams hold (unread received data, pending data, written-but-unflushed
+   data).  The buffer manager is shared by every session on its path and lives on while any of them does;
+   the cleanup of a dead session (stream.Close -> close -> clean -> recycle for every stream of the table
+   it drops, the session already shut down) returns every slice the session held: its holding is 0
+   afterwards, exactly that much came back, the siblings' holdings are untouched, nothing is taken.
+   From any invariant state; independent of the manager's reference count. *)
+Theorem C14_dead_session_returns_slices : forall w i s,
+  PInv w -> nth_error (ss (pb w)) i = Some s -> cleaned s = false ->
+  let w' := pstep true (pstep true w (PBase (LClose i))) (PBase (LLambda i)) in
+  held_by i (holds w') = O /\
+  returned w' = (returned w + held_by i (holds w))%nat /\
+  (forall j, i <> j -> held_by j (holds w') = held_by j (holds w)) /\
+  taken w' = taken w /\ PInv w'.
+Proof. exact dead_session_returns_slices. Qed.
+Print Assumptions C14_dead_session_returns_slices.
+
+(* ... over all schedules: every slice ever taken is back in the free lists or held by a stream of a
+   session whose cleanup has not run yet *)
+Theorem C14_slices_conserved : forall sch,
+  let w := prun true sch pinit in
+  taken w = (returned w + total_held (holds w))%nat /\
+  (forall h, In h (holds w) -> table_dropped (pb w) (fst h) = false) /\ WInv (pb w).
+Proof. exact slices_conserved. Qed.
+Print Assumptions C14_slices_conserved.
+
+(* regression: a Stream.clean that returns early once the session is closed ("a closed session releases
+   its share memory as a whole") — conservation is false of it while a sibling keeps the manager alive *)
+Definition C14_early_return_clean_full : Prop :=
+  forall sch, let w := prun false sch pinit in taken w = (returned w + total_held (holds w))%nat.
+Theorem C14_early_return_clean_refuted : ~ C14_early_return_clean_full.
+Proof. exact early_return_loses_slices. Qed.
+Print Assumptions C14_early_return_clean_refuted.
+Example C14_example_slices :
+  let w := prun true slices_witness pinit in
+  taken w = 55%nat /\ returned w = 50%nat /\ holds w = [(1%nat, 5%nat)] /\ refcount 7 (pb w) = 1.
+Proof. exact slices_witness_ok. Qed.
+
 (* non-vacuity: two sessions share manager 7; the first is closed twice and by the remote side, the
    second once; the manager is unmapped exactly once, by the last one *)
 Example C14_example_run :
